@@ -73,6 +73,7 @@ func (w *World) mineChain(parent *chainmodel.Block, n int, spacing time.Duration
 		if ntxPct > 0 && w.tp.Chance(ntxPct, 100) {
 			o.NTx = 1 + w.tp.Intn(2)
 			o.OpReturn = w.tp.Chance(1, 3)
+			o.OddScript = w.tp.Chance(1, 4)
 		}
 		if i == breakAt {
 			o.Break = rule
